@@ -187,7 +187,7 @@ T tdigest<T, A>::get_quantile(double rank) const {
       }
       const double w1 = weight - weight_so_far - left_weight;
       const double w2 = weight_so_far + dw - weight - right_weight;
-      return weighted_average(centroids_[i].get_mean(), w1, centroids_[i + 1].get_mean(), w2);
+      return weighted_average(centroids_[i].get_mean(), w2, centroids_[i + 1].get_mean(), w1);
     }
     weight_so_far += dw;
   }
